@@ -66,6 +66,27 @@ RESULT_LEDGER = {
     ("control_flow_graph::ssa_impl::update_declarations", "expect", "anyhow::Error"): "NonEmptyVec from a version range that is never empty (unwrap_or(0..1))",
 }
 
+# C01.11: indexing that can go out of bounds (`v[i]`, `v[a..]`, `map[&k]`), hand-written code reachable from main, counted
+# per (container type, index type) over the whole program - not per function, so that moving code between functions or
+# renaming them changes nothing.  `[..]` cannot fail and is not counted.
+INDEX_LEDGER = {
+    ("[T; N]", "std::ops::RangeFrom<usize>"): (1, "NonEmptyVec::try_from: `[1..]` after the emptiness test"),
+    ("[T]", "std::ops::RangeFrom<usize>"): (1, "NonEmptyVec::try_from: `[1..]` after the emptiness test"),
+    ("std::vec::Vec<T>", "std::ops::RangeFrom<usize>"): (1, "NonEmptyVec::try_from: `[1..]` after the emptiness test"),
+    ("std::vec::Vec<T>", "usize"): (4, "NonEmptyVec index/index_mut: index 0 is the head, i-1 into the tail; callers pass block indices (C12.4: index = position)"),
+    ("std::collections::HashMap<usize, std::vec::Vec<abstract_syntax_tree::ast::Definition>>", "&usize"): (1, "ProgramArchive::new: key taken from the same map's key set"),
+    ("std::vec::Vec<&str>", "usize"): (3, "String::try_lift: tokens[0], tokens[1] under the arm for that length (C10.3)"),
+    ("std::vec::Vec<(std::string::String, usize)>", "usize"): (1, "remove_anonymous_from_expression: inputs[i] with i < inputs.len() checked by the arity test (C18.4)"),
+    ("std::vec::Vec<circomspect_program_structure::intermediate_representation::Expression>", "usize"): (3, "args[0] of Num2Bits/LessThan after name and arity were tested (C01.10 / C11.3)"),
+    ("std::vec::Vec<control_flow_graph::basic_block::BasicBlock>", "usize"): (1, "Cfg::get_dominance_frontier: indices produced by the dominator tree of the same block vector"),
+    ("std::vec::Vec<std::collections::HashSet<usize>>", "usize"): (10, "dominator tree: vectors sized by the number of blocks, indices are block indices (C12.4)"),
+    ("std::vec::Vec<std::option::Option<usize>>", "usize"): (4, "dominator tree: immediate-dominator vector sized by the number of blocks"),
+    ("std::vec::Vec<utils::environment::VariableBlock<VC>>", "usize"): (2, "environment: index found by position() on the same vector"),
+    ("utils::nonempty_vec::NonEmptyVec<control_flow_graph::basic_block::BasicBlock>", "&usize"): (2, "complete_basic_block: predecessor indices are indices of existing blocks (C12.1)"),
+    ("utils::nonempty_vec::NonEmptyVec<control_flow_graph::basic_block::BasicBlock>", "usize"): (3, "complete_basic_block / SSA: the block just pushed and frontier indices"),
+}
+INDEX_RE = re.compile(r"ops::Index(Mut)?<[^>]*>>::index(_mut)?$|impl std::ops::Index(Mut)?<I> for [^>]*>::index(_mut)?$")
+
 PANIC_RE = re.compile(r"(core|std)::panicking::(panic|panic_fmt|assert_failed|panic_explicit|unreachable_display|panic_display|panic_str)|core::panicking::panic_const")
 
 
@@ -152,6 +173,37 @@ def rule_ledger(ctx):
         ctx.check(R1, "%s/%s<%s>" % k, ent is not None, ("reviewed: " + ent) if ent else "a Result carrying the repository's error type %s is unwrapped: the error that says `bad input` becomes a panic" % k[2], where[k])
     ctx.floor(R1, "ledgered unwrap sites present", sum(1 for k in RESULT_LEDGER if k in rsites), 3)
     # every function that returns a repo Result: is it consumed somewhere by unwrap in generated code? (grammar handled by C01.4)
+
+
+def rule_index_ledger(ctx):
+    R = "C01.11"
+    ctx.rule(R, "every indexing operation that can go out of bounds in hand-written code reachable from main is a reviewed ledger entry (per container and index type, program-wide count); a new one is a new way for an input to end the process with a panic")
+    idx = mirlib.index()
+    seen = reachable_from_main()
+    if seen is None:
+        return ctx.missing(R, "circomspect::main")
+    cnt = collections.Counter()
+    where = {}
+    for f in seen:
+        fn = idx.get(f)
+        if fn is None or fn.get("gen"):
+            continue
+        for _i, t in mirlib.calls_of(fn):
+            p = t.get("pretty") or ""
+            if t.get("exp") or not INDEX_RE.search(p):
+                continue
+            g = t.get("gargs") or []
+            if len(g) > 1 and "RangeFull" in g[1]:
+                continue
+            k = (g[0] if g else "?", g[1] if len(g) > 1 else "?")
+            cnt[k] += 1
+            where.setdefault(k, []).append("%s (%s:%s)" % (fn["pretty"], fn["file"], t["line"]))
+    ctx.table("index sites", ["%dx %s[%s]" % (v, k[0], k[1]) for k, v in sorted(cnt.items())])
+    for k, v in sorted(cnt.items()):
+        ent = INDEX_LEDGER.get(k)
+        ok = ent is not None and v <= ent[0]
+        ctx.check(R, "index/%s[%s]" % k, ok, ("%d site(s), ledger %d: %s" % (v, ent[0], ent[1])) if ok else "indexing without a ledger entry (found %d, reviewed %d): %s" % (v, ent[0] if ent else 0, where[k][-3:]))
+    ctx.floor(R, "ledgered index kinds present", sum(1 for k in INDEX_LEDGER if k in cnt), 10)
 
 
 def regex_lang(rx):
@@ -282,8 +334,9 @@ def run(ctx):
     rule_ledger(ctx)
     ctx.include("C01.3", "the time box is checked on every propagation iteration and the cut only stops the loop (shared with C20.1)", c20.rule_cut)
     rule_terminals(ctx)
-    ctx.include("C01.5", "arithmetic preconditions: zero-tested divisors, bounded exponents (shared with C16.1/C16.2); the constant evaluator takes fallible results only on Ok and never shortcuts them (C06.1); only versioned names enter the value environment (C06.4)", c16.rule_divisors, c16.rule_exponents, c06.rule_operator_table, c06.rule_environment)
+    ctx.include("C01.5", "arithmetic preconditions: zero-tested divisors, bounded exponents (shared with C16.1/C16.2); the constant evaluator takes fallible results only on Ok and never shortcuts them (C06.1); only versioned names enter the value environment (C06.4)", c16.rule_divisors, c16.rule_exponents, c16.rule_shift_recursion, c06.rule_operator_table, c06.rule_environment)
     rule_byte_cuts(ctx)
+    rule_index_ledger(ctx)
     rule_main_component_filled(ctx)
     ctx.include("C01.8", "discharges the lifting panics: desugaring forgets no position and eliminates / rejects the node kinds the lifting cannot handle (shared with C18.1/C18.2/C18.3)", c18.rule_flow, c18.rule_elimination, c18.rule_contains)
     ctx.include("C01.9", "discharges Meta::get_file_id and the renderer's label assertion: every node gets its file id, spans are ordered token boundaries (shared with C04.4/C04.5)", c04.rule_grammar_spans, c04.rule_fill)
